@@ -6,18 +6,26 @@ Fail-closed translator for the table-like parts of OpenSquirrel:
   default_measures.py, default_resets.py      (gen_measures, gen_measure_set, gen_resets, gen_reset_set)
   common.py           -> Gen/Constants.v      (ATOL as a rational, normalize_angle as a Gallina term)
   writer.py, cqasmv1_exporter.py, quantify_scheduler_exporter.py -> precisions
+and for the numeric kernels (second half of this file, "numeric kernels"):
+  aba_decomposer.py, general_merger.py, matrix_expander.py (can1), ir.py (BlochSphereRotation.is_identity, __eq__),
+  mckay_decomposer.py, cnot_decomposer.py -> Gen/Kernels.v (gen_aba_angles, gen_aba_gates, gen_compose, gen_can1,
+  gen_is_identity, gen_bsr_eq, gen_mckay_decompose, gen_cnot_decompose), proved equal to the hand-written model
+  in Gen/KernelCheck.v (emitted here as fixed text: the proofs do not depend on the source).
 
 Only a whitelist of AST shapes is accepted.  Anything else is reported as a
 fallback: the generated definition is then a value that cannot be equal to the
-hand-written table (so Gen/TableCheck.v stops compiling and every theorem that
-depends on it is no longer shown), never a guess.
+hand-written table (so Gen/TableCheck.v, or Gen/KernelCheck.v for a kernel, stops
+compiling and every theorem that depends on it is no longer shown), never a guess.
 A file is rewritten only when its content changes, so `make` stays incremental."""
 from __future__ import annotations
 
 import ast
 import json
+import math
 import os
+import re
 import sys
+from dataclasses import dataclass
 from fractions import Fraction
 
 
@@ -402,6 +410,1641 @@ def translate_constants(repo: str, report: dict) -> str:
     return "\n".join(lines) + "\n"
 
 
+# ---------------------------------------------------------------- numeric kernels
+#
+# A small fail-closed translator for straight-line numeric Python functions into Gallina over [Num T].
+# Supported statements: assignment (also tuple targets, augmented, annotated), if/elif/else (variables assigned
+# in both branches are joined as a tuple), raise, return, `l.append(x)`, `l[i] = x`.
+# Supported expressions: see KTrans.ex.  Every library name is resolved through the imports of the module it
+# occurs in (`from math import cos` and `math.cos` are the same thing; a local variable shadows an import).
+# Mappings to functions of the hand model are explicit and listed in KTrans.call; helper methods that are mapped
+# rather than translated are PINNED: their source text must be exactly the expected one (pinned()).
+# Anything else raises Unsupported: the kernel is then emitted as a definition that cannot be equal to the model.
+
+
+@dataclass
+class Val:
+    t: str | None                 # Gallina term (atomic or parenthesised); None for a purely static value
+    ty: str                       # F float | B bool | Z runtime int | V 3-vector | I static int | SF static float |
+                                  # S static string | NONE | GEN | ARGS | NAME | GATE | L (list of gates) | NAT |
+                                  # FLIST (Python list of floats) | OBJ | TUPLE | RES
+    static: object = None         # Python value of a static int / float / bool / string
+    axid: str | None = None       # Z that is `axis_index a`: the axis_id term a
+    cls: str | None = None        # OBJ: canonical Python class
+    fields: dict | None = None    # OBJ: attribute -> Val
+    items: list | None = None     # TUPLE: components
+    gi: str | None = None         # NAME: the ginfo term whose name this is
+    res: str | None = None        # RES (a call that may raise): what is inside the `result` (L, GATE, BSRG, F3)
+
+
+COQ_RESERVED = {"pi", "atol", "two_pi", "N", "T", "at", "in", "let", "if", "then", "else", "match", "with", "end",
+                "fun", "forall", "exists", "as", "return", "fix", "cofix", "where", "using", "mod", "Type", "Set",
+                "Prop", "fst", "snd", "rtol", "eye", "C", "c0", "c1", "n0", "n1", "n2", "dot3", "cross3", "compose",
+                "can1", "is_identity", "bsr_eq", "gen_atol", "vscale", "vadd", "vsub", "vround", "e", "result",
+                # the vocabulary of the generated terms
+                "nofZ", "nadd", "nsub", "nmul", "ndiv", "nneg", "nabs", "nsqrt", "nsin", "ncos", "ntan", "nacos",
+                "natan2", "npi", "nmod", "nltb", "nleb", "neqb", "ncopysign", "nround", "nroundpy", "nmax", "nmin",
+                "nsq", "cmul", "ax_x", "ax_y", "ax_z", "axis_comp", "axis_index", "unused_axis", "neg_axis",
+                "close_axis", "close_r", "normalize_angle", "mk_bsr", "mkGinfo", "anon", "gname", "gargs", "name_is",
+                "BSR", "Ctrl", "Mat", "Ok", "Err", "EValue", "EIndex", "EKey", "EType", "EOther", "None", "Some",
+                "true", "false", "negb", "andb", "orb", "AxX", "AxY", "AxZ", "AQ", "DSame", "DNew", "news",
+                "rot_gate", "x90", "default_gate", "compose_gates", "aba_angles", "aba_gates", "filter_identities",
+                "list_set", "gate_at", "gate_is_bsr", "gate_angle", "gate_axis", "ia", "ib", "d", "Z", "nat", "list",
+                "bool", "gate", "ginfo", "axis3", "ditem", "string", "length", "nth", "app"}
+
+
+def cname(py: str) -> str:
+    if not py.isidentifier() or not py.isascii():
+        raise Unsupported(f"identifier {py!r}")
+    return py + "_" if py in COQ_RESERVED else py
+
+
+def zlit(n: int) -> str:
+    return f"({n})" if n < 0 else str(n)
+
+
+class Module:
+    """a parsed source file with its import table"""
+
+    def __init__(self, repo: str, rel: str):
+        self.rel = rel
+        self.dotted = "opensquirrel." + rel[:-3].replace("/", ".")
+        self.src = open(os.path.join(repo, "opensquirrel", rel)).read()
+        self.tree = ast.parse(self.src)
+        self.alias: dict[str, str] = {}
+        for s in self.tree.body:
+            if isinstance(s, ast.Import):
+                for a in s.names:
+                    self.alias[a.asname or a.name] = a.name
+            elif isinstance(s, ast.ImportFrom) and s.module and s.level == 0:
+                for a in s.names:
+                    self.alias[a.asname or a.name] = s.module + "." + a.name
+            elif isinstance(s, (ast.ClassDef, ast.FunctionDef)):
+                self.alias[s.name] = self.dotted + "." + s.name
+            elif isinstance(s, ast.Assign) and len(s.targets) == 1 and isinstance(s.targets[0], ast.Name):
+                self.alias[s.targets[0].id] = self.dotted + "." + s.targets[0].id
+
+    def scope(self, cls: str | None):
+        if cls is None:
+            return self.tree.body
+        for s in self.tree.body:
+            if isinstance(s, ast.ClassDef) and s.name == cls:
+                return s.body
+        raise Unsupported(f"class {cls} not found in {self.rel}")
+
+    def func(self, name: str, cls: str | None = None) -> ast.FunctionDef:
+        found = [s for s in self.scope(cls) if isinstance(s, ast.FunctionDef) and s.name == name]
+        if len(found) != 1:
+            raise Unsupported(f"function {cls or ''}.{name} not found exactly once in {self.rel}")
+        return found[0]
+
+    def pinned(self, what: str, node_src: str, expected: str) -> None:
+        if node_src != expected:
+            raise Unsupported(f"{self.rel}: {what} is not the pinned text (found {node_src[:80]!r})")
+
+
+def body_of(fn: ast.FunctionDef) -> list[ast.stmt]:
+    """statements without docstrings / bare string expressions"""
+    return [s for s in fn.body if not (isinstance(s, ast.Expr) and isinstance(s.value, ast.Constant)
+                                      and isinstance(s.value.value, str))]
+
+
+def unparse_body(fn: ast.FunctionDef) -> str:
+    return "\n".join(ast.unparse(s) for s in body_of(fn))
+
+
+BUILTINS = {"abs", "max", "min", "float", "round", "len", "isinstance", "sum", "zip"}   # names that are not imports
+MATH1 = {"math.sin": "nsin", "math.cos": "ncos", "math.tan": "ntan", "math.acos": "nacos", "math.sqrt": "nsqrt"}
+MATH2 = {"math.atan2": "natan2", "math.copysign": "ncopysign"}
+ERRS = {"ValueError": "EValue", "IndexError": "EIndex", "KeyError": "EKey", "TypeError": "EType"}
+IR = "opensquirrel.ir."
+BSR_CLS = IR + "BlochSphereRotation"
+ROT_GATES = {"opensquirrel.default_gates.Rx": "AxX", "opensquirrel.default_gates.Ry": "AxY",
+             "opensquirrel.default_gates.Rz": "AxZ"}
+ABA_CLASSES = {"opensquirrel.decomposer.aba_decomposer." + n: (n[0], n[1]) for n in
+               ("XYXDecomposer", "XZXDecomposer", "YXYDecomposer", "YZYDecomposer", "ZXZDecomposer", "ZYZDecomposer")}
+
+
+class Ctx:
+    """what is shared by all kernels of one run: the repository, the parsed modules, ATOL"""
+
+    def __init__(self, repo: str):
+        self.repo = repo
+        self.mods: dict[str, Module] = {}
+        v = const_of(os.path.join(repo, "opensquirrel", "common.py"), None, "ATOL")
+        if not (isinstance(v, ast.Constant) and isinstance(v.value, float)):
+            raise Unsupported("common.ATOL is not a float literal")
+        self.atol = v.value
+
+    def mod(self, rel: str) -> Module:
+        if rel not in self.mods:
+            try:
+                self.mods[rel] = Module(self.repo, rel)
+            except (OSError, SyntaxError) as e:
+                raise Unsupported(f"{rel}: {e}") from e
+        return self.mods[rel]
+
+    def axis_of_axis_is_identity(self) -> None:
+        """Axis(a) of an Axis object a keeps its value: pinned first statement of _parse_and_validate_axislike"""
+        m = self.mod("ir.py")
+        fn = m.func("_parse_and_validate_axislike", "Axis")
+        m.pinned("Axis._parse_and_validate_axislike (first statement)", ast.unparse(body_of(fn)[0]),
+                 "if isinstance(axis, Axis):\n    return axis.value")
+        init = m.func("__init__", "Axis")
+        m.pinned("Axis.__init__", unparse_body(init),
+                 "axis_to_parse = axis[0] if len(axis) == 1 else cast(AxisLike, axis)\n"
+                 "self._value = self._parse_and_validate_axislike(axis_to_parse)")
+        get = m.func("__getitem__", "Axis")
+        m.pinned("Axis.__getitem__", unparse_body(get), "return cast(np.float64, self.value[index])")
+
+
+def bsr_obj(prefix: str, with_gi: bool) -> Val:
+    """a BlochSphereRotation whose fields are the Coq variables <prefix>_qubit, _axis, _angle, _phase[, _gi]"""
+    f = {"qubit": Val(f"{prefix}_qubit", "Z"), "axis": Val(f"{prefix}_axis", "V"),
+         "angle": Val(f"{prefix}_angle", "F"), "phase": Val(f"{prefix}_phase", "F")}
+    if with_gi:
+        f["generator"] = Val(f"(gname {prefix}_gi)", "GEN")
+        f["arguments"] = Val(f"(gargs {prefix}_gi)", "ARGS")
+        f["name"] = Val(None, "NAME", gi=f"{prefix}_gi")
+    return Val(f"(BSR {prefix}_qubit {prefix}_axis {prefix}_angle {prefix}_phase)", "OBJ", cls=BSR_CLS, fields=f)
+
+
+def bsr_binders(prefix: str, with_gi: bool) -> str:
+    s = f"({prefix}_qubit : Z) ({prefix}_axis : axis3 T) ({prefix}_angle {prefix}_phase : T)"
+    return s + (f" ({prefix}_gi : ginfo T)" if with_gi else "")
+
+
+class KTrans:
+    def __init__(self, ctx: Ctx, mod: Module, monadic: bool, notes: list[str]):
+        self.ctx, self.mod, self.monadic, self.notes = ctx, mod, monadic, notes
+        self.methods = {}        # (class, method name) of `self.<m>(...)` -> function of the argument Vals
+        self.subject = None      # the gate a decomposer is applied to
+        self.depth = 0
+        self.hoisted: list[tuple[str, str]] = []
+        self.nres = 0
+        self.taken: set[str] = set()   # Coq binders that stand for the fields of a parameter: never shadowed
+        self.in_cond = 0               # > 0 inside an expression Python evaluates conditionally
+
+    def cn(self, py: str) -> str:
+        """Coq name of a Python local"""
+        n = cname(py)
+        while n in self.taken or re.fullmatch(r"r\d+", n):              # r1, r2, ...: results of calls, see unres
+            n += "_"
+        return n
+
+    # ------------------------------------------------------------ names
+    def canon(self, e, env) -> str | None:
+        """canonical dotted name of a library reference, None for anything else"""
+        if isinstance(e, ast.Name):
+            if e.id in env:
+                return None
+            if e.id in self.mod.alias:
+                return self.mod.alias[e.id]
+            return e.id if e.id in BUILTINS else None
+        if isinstance(e, ast.Attribute):
+            base = self.canon(e.value, env)
+            return None if base is None else base + "." + e.attr
+        return None
+
+    # ------------------------------------------------------------ coercions
+    def F(self, v: Val) -> str:
+        if v.ty == "F":
+            return v.t
+        if v.ty == "I":                                                 # Python writes -1 as -(1)
+            return f"(nofZ N {v.static})" if v.static >= 0 else f"(- (nofZ N {-v.static}))"
+        raise Unsupported(f"a float is expected, not {v.ty}")
+
+    def Zt(self, v: Val) -> str:
+        if v.ty == "Z":
+            return v.t
+        if v.ty == "I":
+            return zlit(v.static)
+        raise Unsupported(f"an integer is expected, not {v.ty}")
+
+    def Bt(self, v: Val) -> str:
+        if v.ty != "B":
+            raise Unsupported(f"a boolean is expected, not {v.ty}")
+        if v.static is not None:
+            return "true" if v.static else "false"
+        return v.t
+
+    def Vt(self, v: Val) -> str:
+        if v.ty != "V":
+            raise Unsupported(f"a 3-vector is expected, not {v.ty}")
+        return v.t
+
+    # ------------------------------------------------------------ expressions
+    def ex(self, e, env) -> Val:
+        if isinstance(e, ast.Constant):
+            c = e.value
+            if isinstance(c, bool):
+                return Val(None, "B", static=c)
+            if isinstance(c, int):
+                return Val(None, "I", static=c)
+            if isinstance(c, float):
+                if c.is_integer() and 0 <= c < 2 ** 53:
+                    return Val(f"(nofZ N {int(c)})", "F")            # an integral literal is exact
+                raise Unsupported(f"float literal {c!r}")
+            if isinstance(c, str):
+                return Val(None, "S", static=c)
+            if c is None:
+                return Val("None", "NONE")
+            raise Unsupported(f"constant {c!r}")
+        if isinstance(e, ast.Name):
+            if e.id in env:
+                return env[e.id]
+            return self.libval(self.canon(e, env), e)
+        if isinstance(e, ast.Attribute):
+            cn = self.canon(e, env)
+            if cn is not None:
+                return self.libval(cn, e)
+            o = self.ex(e.value, env)
+            if o.ty == "OBJ" and e.attr in o.fields:
+                return o.fields[e.attr]
+            if o.ty == "V" and e.attr == "value":                       # Axis.value
+                return o
+            if o.ty == "GATE" and e.attr == "name":                      # Gate.name: the generator's __name__
+                return Val(None, "NAME", gi=f"(snd {o.t})")
+            if o.ty == "GATE" and e.attr in ("angle", "axis"):
+                if o.cls != BSR_CLS and ("bsr", ast.unparse(e.value)) not in env.get(self.FACTS, ()):
+                    raise Unsupported(f"{ast.unparse(e)} without an isinstance guard")
+                return Val(f"(gate_{e.attr} {o.t})", "F" if e.attr == "angle" else "V")
+            if o.ty == "FLIST":
+                raise Unsupported("attribute of a list")
+            raise Unsupported(f"attribute .{e.attr} of {o.ty} {o.cls or ''}")
+        if isinstance(e, ast.Tuple):
+            items = [self.ex(x, env) for x in e.elts]
+            if len(items) == 3 and all(i.ty in ("F", "I") for i in items):
+                return Val("(" + ", ".join(strip_parens(self.F(i)) for i in items) + ")", "V", items=items)
+            return Val(None, "TUPLE", items=items)
+        if isinstance(e, ast.UnaryOp):
+            v = self.ex(e.operand, env)
+            if isinstance(e.op, ast.USub):
+                if v.ty == "I":
+                    return Val(None, "I", static=-v.static)
+                if v.ty == "F":
+                    return Val(f"(- {v.t})", "F")
+                if v.ty == "V":
+                    return Val(f"(neg_axis N {v.t})", "V")
+            if isinstance(e.op, ast.Not) and v.ty == "B":
+                if v.static is not None:
+                    return Val(None, "B", static=not v.static)
+                return Val(f"(negb {v.t})", "B")
+            raise Unsupported(f"unary {type(e.op).__name__} on {v.ty}")
+        if isinstance(e, ast.BinOp):
+            return self.binop(e.op, self.ex(e.left, env), self.ex(e.right, env))
+        if isinstance(e, ast.Compare):
+            return self.compare(e, env)
+        if isinstance(e, ast.BoolOp):
+            vals = []
+            env_i = env
+            for i, x in enumerate(e.values):                             # `a and b`: b is evaluated when a holds
+                self.in_cond += i > 0
+                try:
+                    vals.append(self.ex(x, env_i))
+                finally:
+                    self.in_cond -= i > 0
+                if isinstance(e.op, ast.And):
+                    env_i = self.with_facts(env_i, x)
+            for v in vals:
+                self.Bt(v)
+            is_and = isinstance(e.op, ast.And)
+            if any(v.static is (not is_and) for v in vals):               # absorbing element (pure operands)
+                return Val(None, "B", static=not is_and)
+            vals = [v for v in vals if v.static is None]                 # neutral elements
+            if not vals:
+                return Val(None, "B", static=is_and)
+            t = vals[0].t
+            for v in vals[1:]:
+                t = f"({opnd(t)} {'&&' if is_and else '||'} {opnd(v.t)})"
+            return Val(t, "B")
+        if isinstance(e, ast.IfExp):
+            c = self.ex(e.test, env)
+            self.in_cond += 1
+            try:
+                a, b = self.ex(e.body, env), self.ex(e.orelse, env)
+            finally:
+                self.in_cond -= 1
+            if c.ty == "B" and c.static is not None:
+                return a if c.static else b
+            ty = self.join_ty(a, b)
+            return Val(f"(if {strip_parens(self.Bt(c))} then {opnd(self.as_ty(a, ty))} else {opnd(self.as_ty(b, ty))})", ty)
+        if isinstance(e, ast.Subscript):
+            base = self.ex(e.value, env)
+            idx = self.ex(e.slice, env)
+            if base.ty == "V":
+                if idx.ty == "Z" and idx.axid:
+                    return Val(f"(axis_comp {base.t} {idx.axid})", "F")
+                if idx.ty == "I" and idx.static in (0, 1, 2):
+                    return Val(f"({('ax_x', 'ax_y', 'ax_z')[idx.static]} {base.t})", "F")
+            if base.ty == "L" and isinstance(e.value, ast.Name) and idx.ty == "I" and idx.static >= 0:
+                if not any(f[0] == "len" and f[1] == e.value.id and f[2] > idx.static
+                           for f in env.get(self.FACTS, ())):
+                    raise Unsupported(f"{ast.unparse(e)} without a len() guard")
+                return Val(f"(gate_at {base.t} {idx.static})", "GATE")
+            raise Unsupported(f"subscript of {base.ty} by {idx.ty}")
+        if isinstance(e, ast.List):
+            items = [self.ex(x, env) for x in e.elts]
+            if len(items) == 1 and items[0].ty == "OBJ" and items[0] is self.subject and \
+                    not isinstance(e.elts[0], ast.Starred):
+                return Val(None, "L", static="SAME")                       # [g]: the very same object
+            if items and all(i.ty in ("F", "I") for i in items):          # a Python list of floats, kept static
+                return Val(None, "FLIST", items=[Val(self.F(i), "F") for i in items])
+            if not items:
+                return Val("([] : list (gate T * ginfo T))", "L")
+            segs, cur = [], []
+            for x, i in zip(e.elts, items):
+                i = self.unres(i)
+                if isinstance(x, ast.Starred):                           # [*l, ...]
+                    if i.ty != "L" or i.t is None:
+                        raise Unsupported("*x where x is not a list of gates")
+                    if cur:
+                        segs.append("[" + "; ".join(cur) + "]")
+                        cur = []
+                    segs.append(i.t)
+                elif i.ty == "GATE":
+                    cur.append(strip_parens(i.t))
+                else:
+                    raise Unsupported("list of something else than gates")
+            if cur:
+                segs.append("[" + "; ".join(cur) + "]")
+            return Val(segs[0] if len(segs) == 1 else "(" + " ++ ".join(segs) + ")%list", "L")
+        if isinstance(e, ast.Starred):
+            return self.ex(e.value, env)
+        if isinstance(e, ast.Call):
+            return self.call(e, env)
+        raise Unsupported(f"expression {type(e).__name__}: {ast.unparse(e)[:80]}")
+
+    # ------------------------------------------------------------ guards
+    # l[i] and the attributes of a list element are partial in Python; they are only translated where a test
+    # `len(l) >= k` / `isinstance(x, BlochSphereRotation)` textually dominates them (same `and` chain or enclosing if)
+    FACTS = "$facts"
+
+    def facts_of(self, test, env) -> set:
+        out = set()
+        if isinstance(test, ast.BoolOp) and isinstance(test.op, ast.And):
+            for x in test.values:
+                out |= self.facts_of(x, env)
+        elif isinstance(test, ast.Compare) and len(test.ops) == 1 and isinstance(test.left, ast.Call) and \
+                self.canon(test.left.func, env) == "len" and len(test.left.args) == 1 and \
+                isinstance(test.left.args[0], ast.Name) and isinstance(test.comparators[0], ast.Constant) and \
+                isinstance(test.comparators[0].value, int) and isinstance(test.ops[0], (ast.GtE, ast.Gt)):
+            k = test.comparators[0].value + (1 if isinstance(test.ops[0], ast.Gt) else 0)
+            out.add(("len", test.left.args[0].id, k))
+        elif isinstance(test, ast.Call) and self.canon(test.func, env) == "isinstance" and len(test.args) == 2 and \
+                self.canon(test.args[1], env) == BSR_CLS:
+            out.add(("bsr", ast.unparse(test.args[0])))
+        return out
+
+    def with_facts(self, env: dict, test) -> dict:
+        f = self.facts_of(test, env)
+        if not f:
+            return env
+        env = dict(env)
+        env[self.FACTS] = frozenset(env.get(self.FACTS, frozenset()) | f)
+        return env
+
+    def forget(self, env: dict, name: str) -> None:
+        """facts about a variable that is assigned again are dropped"""
+        if self.FACTS in env:
+            env[self.FACTS] = frozenset(f for f in env[self.FACTS]
+                                        if not re.search(r"\b" + re.escape(name) + r"\b", f[1]))
+
+    def join_ty(self, a: Val, b: Val) -> str:
+        if a.ty == b.ty and a.ty in ("F", "B", "Z", "V", "GEN", "ARGS", "GATE", "L"):
+            return a.ty
+        if {a.ty, b.ty} <= {"F", "I"}:
+            return "F"
+        if {a.ty, b.ty} <= {"Z", "I"}:
+            return "Z"
+        for t in ("GEN", "ARGS"):
+            if {a.ty, b.ty} == {t, "NONE"}:
+                return t
+        raise Unsupported(f"values of types {a.ty} and {b.ty} cannot be joined")
+
+    def as_ty(self, v: Val, ty: str) -> str:
+        if ty == "F":
+            return self.F(v)
+        if ty == "Z":
+            return self.Zt(v)
+        if ty == "B":
+            return self.Bt(v)
+        return v.t
+
+    def libval(self, cn: str | None, e) -> Val:
+        if cn == "math.pi":
+            return Val("(pi N)", "F")
+        if cn == "opensquirrel.common.ATOL":
+            return Val("gen_atol", "F", static=self.ctx.atol)
+        raise Unsupported(f"name {ast.unparse(e)[:60]}")
+
+    def binop(self, op, l: Val, r: Val) -> Val:
+        sym = {ast.Add: "+", ast.Sub: "-", ast.Mult: "*", ast.Div: "/"}.get(type(op))
+        if isinstance(op, ast.Mod) and "F" in (l.ty, r.ty) and l.ty in ("F", "I") and r.ty in ("F", "I"):
+            return Val(f"(nmod N {self.F(l)} {self.F(r)})", "F")          # Python's % on floats
+        if l.ty == "I" and r.ty == "I" and sym in ("+", "-", "*"):
+            return Val(None, "I", static={"+": l.static + r.static, "-": l.static - r.static,
+                                          "*": l.static * r.static}[sym])
+        if sym and l.ty in ("F", "I") and r.ty in ("F", "I"):
+            return Val(f"({opnd(self.F(l))} {sym} {opnd(self.F(r))})", "F")
+        if isinstance(op, ast.Pow) and l.ty == "F" and r.ty == "I" and r.static == 2:
+            return Val(f"(nsq N {l.t})", "F")                            # x ** 2 is x * x
+        if sym in ("+", "-") and l.ty in ("Z", "I") and r.ty in ("Z", "I"):
+            return Val(f"(Z.{'add' if sym == '+' else 'sub'} {self.Zt(l)} {self.Zt(r)})", "Z")
+        if sym == "*" and l.ty in ("F", "I") and r.ty == "V":
+            return Val(f"(vscale {self.F(l)} {r.t})", "V")               # numpy: scalar * array, componentwise
+        if sym in ("+", "-") and l.ty == "V" and r.ty == "V":
+            return Val(f"({'vadd' if sym == '+' else 'vsub'} {l.t} {r.t})", "V")
+        raise Unsupported(f"operator {type(op).__name__} on {l.ty}, {r.ty}")
+
+    def compare(self, e: ast.Compare, env) -> Val:
+        operands = [e.left] + list(e.comparators)
+        parts = []
+        for op, le, ri in zip(e.ops, operands, operands[1:]):
+            if isinstance(op, (ast.In, ast.NotIn)):
+                l = self.ex(le, env)
+                if not (isinstance(ri, ast.Tuple) and ri.elts):
+                    raise Unsupported("`in` needs a literal tuple")
+                consts = [self.ex(x, env) for x in ri.elts]
+                if l.ty != "Z" or any(c.ty != "I" for c in consts):
+                    raise Unsupported("`in` is only supported for an integer in a tuple of integer literals")
+                t = " || ".join(f"Z.eqb d {zlit(c.static)}" for c in consts)
+                t = f"(let d := {l.t} in {t})"
+                parts.append(t if isinstance(op, ast.In) else f"(negb {t})")
+                continue
+            parts.append(self.compare1(op, self.ex(le, env), self.ex(ri, env)))
+        t = parts[0]
+        for p in parts[1:]:
+            t = f"({opnd(t)} && {opnd(p)})"
+        return Val(t, "B")
+
+    def compare1(self, op, l: Val, r: Val) -> str:
+        k = type(op)
+        if l.ty in ("F", "I") and r.ty in ("F", "I") and "F" in (l.ty, r.ty):
+            a, b = opnd(self.F(l)), opnd(self.F(r))
+            return {ast.Lt: f"({a} <? {b})", ast.Gt: f"({b} <? {a})", ast.LtE: f"({a} <=? {b})",
+                    ast.GtE: f"({b} <=? {a})", ast.Eq: f"({a} =? {b})", ast.NotEq: f"(negb ({a} =? {b}))"}[k] \
+                if k in (ast.Lt, ast.Gt, ast.LtE, ast.GtE, ast.Eq, ast.NotEq) else self.bad_cmp(op, l, r)
+        if l.ty in ("Z", "I") and r.ty in ("Z", "I") and "Z" in (l.ty, r.ty):
+            a, b = self.Zt(l), self.Zt(r)
+            tbl = {ast.Eq: f"(Z.eqb {a} {b})", ast.NotEq: f"(negb (Z.eqb {a} {b}))", ast.Lt: f"(Z.ltb {a} {b})",
+                   ast.Gt: f"(Z.ltb {b} {a})", ast.LtE: f"(Z.leb {a} {b})", ast.GtE: f"(Z.leb {b} {a})"}
+            return tbl[k] if k in tbl else self.bad_cmp(op, l, r)
+        if l.ty == "NAT" and r.ty == "I" and r.static >= 0:
+            tbl = {ast.GtE: f"(Nat.leb {r.static} {l.t})", ast.Gt: f"(Nat.ltb {r.static} {l.t})",
+                   ast.LtE: f"(Nat.leb {l.t} {r.static})", ast.Lt: f"(Nat.ltb {l.t} {r.static})",
+                   ast.Eq: f"(Nat.eqb {l.t} {r.static})"}
+            return tbl[k] if k in tbl else self.bad_cmp(op, l, r)
+        if l.ty == "NAME" and r.ty == "S" and k in (ast.Eq, ast.NotEq):
+            t = f"(name_is {l.gi} {coq_str(r.static)})"
+            return t if k is ast.Eq else f"(negb {t})"
+        return self.bad_cmp(op, l, r)
+
+    def bad_cmp(self, op, l, r):
+        raise Unsupported(f"comparison {type(op).__name__} on {l.ty}, {r.ty}")
+
+    # ------------------------------------------------------------ calls
+    def call(self, e: ast.Call, env) -> Val:
+        cn = self.canon(e.func, env)
+        kw = {k.arg: k.value for k in e.keywords}
+        if None in kw:
+            raise Unsupported("**kwargs")
+        args = e.args
+        if any(isinstance(a, ast.Starred) for a in args):
+            raise Unsupported("*args")
+
+        def fargs(n):
+            if kw or len(args) != n:
+                raise Unsupported(f"{cn} expects {n} positional arguments")
+            return [self.ex(a, env) for a in args]
+
+        if cn in MATH1:
+            (x,) = fargs(1)
+            return Val(f"({MATH1[cn]} N {self.F(x)})", "F")
+        if cn in MATH2:
+            x, y = fargs(2)
+            return Val(f"({MATH2[cn]} N {self.F(x)} {self.F(y)})", "F")
+        if cn == "abs":
+            (x,) = fargs(1)
+            if x.ty == "I":
+                return Val(None, "I", static=abs(x.static))
+            return Val(f"(nabs N {self.F(x)})", "F")
+        if cn in ("max", "min"):
+            x, y = fargs(2)
+            if "F" not in (x.ty, y.ty):
+                raise Unsupported(f"{cn} of {x.ty}, {y.ty}")
+            return Val(f"(n{cn} N {self.F(x)} {self.F(y)})", "F")
+        if cn == "float":
+            (x,) = fargs(1)
+            return Val(self.F(x), "F")                                   # float(np.float64) is exact
+        if cn == IR + "Float":
+            (x,) = fargs(1)
+            return Val(self.F(x), "F")                                   # Float(x).value is float(x)
+        if cn == "math.log10":                                           # static only: ATOL
+            (x,) = fargs(1)
+            if x.static is None or x.ty not in ("F", "SF", "I") or not isinstance(x.static, (int, float)):
+                raise Unsupported("log10 of a non-constant")
+            return Val(None, "SF", static=math.log10(x.static))
+        if cn == "math.floor":
+            (x,) = fargs(1)
+            if x.ty != "SF":
+                raise Unsupported("floor of a non-constant")
+            return Val(None, "I", static=math.floor(x.static))
+        if cn == "numpy.dot":
+            x, y = fargs(2)
+            return Val(f"(dot3 N {self.Vt(x)} {self.Vt(y)})", "F")
+        if cn == "numpy.cross":
+            x, y = fargs(2)
+            return Val(f"(cross3 N {self.Vt(x)} {self.Vt(y)})", "V")
+        if cn in ("numpy.round", "round"):
+            x, d = fargs(2)
+            if d.ty != "I":
+                raise Unsupported("number of decimals is not a static integer")
+            fn = "nround" if cn == "numpy.round" else "nroundpy"
+            if x.ty == "V" and cn == "numpy.round":
+                return Val(f"(vround {zlit(d.static)} {x.t})", "V")
+            return Val(f"({fn} N {zlit(d.static)} {self.F(x)})", "F")
+        if cn == "numpy.allclose":                                       # default rtol, atol: Construct.close_r
+            x, y = fargs(2)
+            if x.ty == "V" and y.ty == "V":
+                return Val(f"(close_axis N {x.t} {y.t})", "B")
+            return Val(f"(close_r N {self.F(x)} {self.F(y)})", "B")
+        if cn == "opensquirrel.common.normalize_angle":                  # tied separately by ConstCheck.normalize_ok
+            (x,) = fargs(1)
+            return Val(f"(normalize_angle N {self.F(x)})", "F")
+        if cn == IR + "Axis":
+            (x,) = fargs(1)
+            self.ctx.axis_of_axis_is_identity()
+            return Val(self.Vt(x), "V")
+        if cn == "isinstance":
+            if kw or len(args) != 2:
+                raise Unsupported("isinstance shape")
+            o = self.ex(args[0], env)
+            c = self.canon(args[1], env)
+            if o.ty == "OBJ" and c is not None:
+                if o.cls == c or (o.cls == BSR_CLS and c == IR + "Gate"):
+                    return Val(None, "B", static=True)
+                if c in (BSR_CLS, IR + "ControlledGate", IR + "MatrixGate"):
+                    return Val(None, "B", static=False)
+            if o.ty == "GATE" and c == BSR_CLS:
+                return Val(f"(gate_is_bsr {o.t})", "B")
+            raise Unsupported(f"isinstance({o.ty}, {c})")
+        if cn == "len":
+            (x,) = fargs(1)
+            if x.ty != "L" or x.t is None:
+                raise Unsupported(f"len of {x.ty}")
+            return Val(f"(List.length {x.t})", "NAT")
+        if cn == BSR_CLS:
+            return self.bsr_constructor(e, env, kw)
+        if cn == BSR_CLS + ".identity":
+            (q,) = fargs(1)
+            m = self.ctx.mod("ir.py")
+            return self.inline(m, m.func("identity", "BlochSphereRotation"), [q])
+        # a method of a translated object
+        if isinstance(e.func, ast.Attribute) and cn is None and not \
+                (isinstance(e.func.value, ast.Call) and self.canon(e.func.value.func, env) in ABA_CLASSES):
+            o = self.ex(e.func.value, env)
+            if o.ty == "OBJ" and (o.cls, e.func.attr) in self.methods:
+                if kw:
+                    raise Unsupported(f"keyword arguments of {e.func.attr}")
+                return self.methods[(o.cls, e.func.attr)](*[self.ex(a, env) for a in args])
+            if o.ty == "OBJ" and o.cls == BSR_CLS and e.func.attr == "is_identity":
+                if args or kw:
+                    raise Unsupported("arguments of is_identity")
+                m = self.ctx.mod("ir.py")
+                return self.inline(m, m.func("is_identity", "BlochSphereRotation"), [o])
+        return self.call_more(cn, e, env, kw)
+
+    def call_more(self, cn, e, env, kw) -> Val:
+        args = e.args
+        if cn in ROT_GATES and len(args) == 2 and not kw:                # Rz(q, Float(x)): ABA.rot_gate
+            q, x = self.ex(args[0], env), self.ex(args[1], env)
+            return Val(f"(rot_gate N {ROT_GATES[cn]} {self.Zt(q)} {self.F(x)})", "GATE")
+        if cn == "opensquirrel.default_gates.X90" and len(args) == 1 and not kw:   # McKay.x90
+            return Val(f"(x90 N {self.Zt(self.ex(args[0], env))})", "GATE")
+        if cn == "opensquirrel.utils.identity_filter.filter_out_identities" and len(args) == 1 and not kw:
+            m = self.ctx.mod("utils/identity_filter.py")
+            m.pinned("filter_out_identities", unparse_body(m.func("filter_out_identities")),
+                     "return [gate for gate in gates if not gate.is_identity()]")
+            l = self.ex(args[0], env)
+            if l.ty != "L" or l.t is None:
+                raise Unsupported("filter_out_identities of something else than a list of gates")
+            return Val(f"(filter_identities N {l.t})", "L")
+        if cn == "sum" and len(args) == 1 and not kw and isinstance(args[0], ast.GeneratorExp):
+            return self.sum_zip(args[0], env)
+        if cn and cn.startswith("opensquirrel.default_gates.") and not kw and args:   # X(q), CNOT(c, t): default_gate
+            qs = [self.Zt(self.ex(a, env)) for a in args]
+            nm = cn.rsplit(".", 1)[1]
+            return Val(f"default_gate N {coq_str(nm)} [" + "; ".join(f"AQ {q}" for q in qs) + "]", "RES", res="GATE")
+        if cn == "opensquirrel.merger.general_merger.compose_bloch_sphere_rotations" and len(args) == 2 and not kw:
+            a, b = (self.gate_pair(self.unres(self.ex(x, env))) for x in args)   # tied by compose_ok
+            return Val(f"compose_gates N {a} {b}", "RES", res="BSRG")
+        # ZXZDecomposer().decompose(g) on a BlochSphereRotation: ABA.aba_gates (tied by aba_gates_ok)
+        f = e.func
+        if isinstance(f, ast.Attribute) and f.attr == "get_decomposition_angles" and isinstance(f.value, ast.Call) and \
+                not f.value.args and not f.value.keywords and self.canon(f.value.func, env) in ABA_CLASSES and \
+                len(args) == 2 and not kw:                                # tied by aba_angles_ok
+            ia, ib = aba_axes(self.ctx, self.canon(f.value.func, env).rsplit(".", 1)[1])
+            alpha, axis = self.ex(args[0], env), self.ex(args[1], env)
+            return Val(f"aba_angles N {ia} {ib} {self.F(alpha)} {self.Vt(axis)}", "RES", res="F3")
+        if isinstance(f, ast.Attribute) and f.attr == "decompose" and isinstance(f.value, ast.Call) and \
+                not f.value.args and not f.value.keywords and self.canon(f.value.func, env) in ABA_CLASSES and \
+                len(args) == 1 and not kw:
+            g = self.ex(args[0], env)
+            if g.ty != "OBJ" or g.cls != BSR_CLS:
+                raise Unsupported("decompose of something else than a BlochSphereRotation")
+            ia, ib = aba_axes(self.ctx, self.canon(f.value.func, env).rsplit(".", 1)[1])
+            return Val(f"aba_gates N {ia} {ib} {g.t}", "RES", res="L")
+        raise Unsupported(f"call {ast.unparse(e.func)[:60]}")
+
+    def gate_pair(self, v: Val) -> str:
+        """a gate as the model's pair (gate, (generator, arguments))"""
+        if v.ty == "GATE":
+            return v.t
+        if v.ty == "OBJ" and v.cls == BSR_CLS:
+            if "generator" in v.fields:
+                raise Unsupported("a gate with its generator as an argument")
+            # the target of a ControlledGate: its generator is not part of the model (Ctrl c g)
+            return f"({v.t}, anon)"
+        raise Unsupported(f"a gate is expected, not {v.ty}")
+
+    def sum_zip(self, g: ast.GeneratorExp, env) -> Val:
+        """sum(f(u, v) for u, v in zip(us, vs)) on Python lists of floats of the same static length"""
+        if len(g.generators) != 1:
+            raise Unsupported("nested generator")
+        c = g.generators[0]
+        if c.ifs or c.is_async or not (isinstance(c.target, ast.Tuple) and all(isinstance(t, ast.Name) for t in c.target.elts)):
+            raise Unsupported("generator shape")
+        it = c.iter
+        if not (isinstance(it, ast.Call) and self.canon(it.func, env) == "zip" and not it.keywords
+                and len(it.args) == len(c.target.elts)):
+            raise Unsupported("generator over something else than zip(...)")
+        lists = [self.ex(a, env) for a in it.args]
+        if any(l.ty != "FLIST" for l in lists) or len({len(l.items) for l in lists}) != 1 or not lists[0].items:
+            raise Unsupported("zip of something else than lists of floats of one length")
+        terms = []
+        for row in zip(*(l.items for l in lists)):
+            env2 = dict(env)
+            for t, v in zip(c.target.elts, row):
+                env2[t.id] = v
+            terms.append(self.F(self.ex(g.elt, env2)))
+        self.notes.append("sum(...) starts from the int 0: `0 + x` is written `x` (equal up to the sign of a zero)")
+        t = terms[0]
+        for x in terms[1:]:
+            t = f"({opnd(t)} + {opnd(x)})"
+        return Val(t, "F")
+
+    def bsr_constructor(self, e: ast.Call, env, kw) -> Val:
+        """BlochSphereRotation(qubit=, axis=, angle=, phase=, generator=, arguments=) is Construct.mk_bsr
+           (axis normalised by mk_axis, angle and phase by normalize_angle) with its (generator, arguments)"""
+        if e.args or not {"qubit", "axis", "angle"} <= set(kw) or \
+                set(kw) - {"qubit", "axis", "angle", "phase", "generator", "arguments"}:
+            raise Unsupported("BlochSphereRotation(...) call shape")
+        q = self.Zt(self.ex(kw["qubit"], env))
+        ax = self.Vt(self.ex(kw["axis"], env))
+        ang = self.F(self.ex(kw["angle"], env))
+        ph = self.F(self.ex(kw["phase"], env)) if "phase" in kw else "(nofZ N 0)"
+        if "generator" in kw or "arguments" in kw:
+            g = self.ex(kw["generator"], env) if "generator" in kw else Val("None", "NONE")
+            a = self.ex(kw["arguments"], env) if "arguments" in kw else Val("None", "NONE")
+            if g.ty not in ("GEN", "NONE") or a.ty not in ("ARGS", "NONE"):
+                raise Unsupported("generator / arguments")
+            gi = f"(mkGinfo {g.t} {a.t})"
+        else:
+            gi = "anon"
+        return Val(f"(mk_bsr N {q} {ax} {ang} {ph}, {gi})", "GATE")
+
+    def inline(self, m: Module, fn: ast.FunctionDef, actuals: list[Val]) -> Val:
+        """a helper whose body is a single `return <expression>`: translated in place, in its own module"""
+        if self.depth > 4:
+            raise Unsupported("inlining depth")
+        a = fn.args
+        if a.vararg or a.kwarg or a.kwonlyargs or a.posonlyargs or len(a.args) != len(actuals):
+            raise Unsupported(f"parameters of {fn.name}")
+        body = body_of(fn)
+        if len(body) != 1 or not isinstance(body[0], ast.Return) or body[0].value is None:
+            raise Unsupported(f"{fn.name} is not a single return")
+        sub = type(self)(self.ctx, m, self.monadic, self.notes)
+        sub.depth = self.depth + 1
+        return sub.ex(body[0].value, {p.arg: v for p, v in zip(a.args, actuals)})
+
+    # ------------------------------------------------------------ statements
+    @staticmethod
+    def terminates(stmts) -> bool:
+        if not stmts:
+            return False
+        s = stmts[-1]
+        if isinstance(s, (ast.Return, ast.Raise)):
+            return True
+        return isinstance(s, ast.If) and KTrans.terminates(s.body) and KTrans.terminates(s.orelse)
+
+    @staticmethod
+    def has_exit(stmts) -> bool:
+        return any(isinstance(n, (ast.Return, ast.Raise)) for s in stmts for n in ast.walk(s))
+
+    @staticmethod
+    def assigned(stmts) -> list[str]:
+        out: list[str] = []
+
+        def add(n):
+            if n not in out:
+                out.append(n)
+
+        def target(t):
+            if isinstance(t, ast.Name):
+                add(t.id)
+            elif isinstance(t, (ast.Tuple, ast.List)):
+                for x in t.elts:
+                    target(x)
+            elif isinstance(t, ast.Subscript) and isinstance(t.value, ast.Name):
+                add(t.value.id)
+            else:
+                raise Unsupported(f"assignment target {ast.unparse(t)[:40]}")
+
+        for s in stmts:
+            if isinstance(s, ast.Assign):
+                for t in s.targets:
+                    target(t)
+            elif isinstance(s, (ast.AugAssign, ast.AnnAssign)):
+                target(s.target)
+            elif isinstance(s, ast.If):
+                for n in KTrans.assigned(s.body) + KTrans.assigned(s.orelse):
+                    add(n)
+            elif isinstance(s, ast.Expr) and isinstance(s.value, ast.Call) and \
+                    isinstance(s.value.func, ast.Attribute) and isinstance(s.value.func.value, ast.Name):
+                add(s.value.func.value.id)
+        return out
+
+    RUNTIME = ("F", "B", "Z", "V", "GEN", "ARGS", "GATE", "L")
+
+    def bind(self, name: str, v: Val, env: dict, rest, tail) -> list[str]:
+        """`name = v` followed by the rest"""
+        env = dict(env)
+        self.forget(env, name)
+        if v.ty == "RES":
+            return self.bind_result([name], v, env, rest, tail)
+        if v.ty == "L" and v.static == "SAME":
+            raise Unsupported("the list [g] is only supported in a return")
+        if v.ty == "FLIST":                                               # a list of floats: one let per item
+            names = [f"{self.cn(name)}_{i}" for i in range(len(v.items))]
+            env[name] = Val(None, "FLIST", items=[Val(n, "F") for n in names])
+            return [f"let {n} := {strip_parens(it.t)} in" for n, it in zip(names, v.items)] + self.seq(rest, env, tail)
+        if v.ty in ("I", "SF", "S", "NONE") or (v.ty == "B" and v.static is not None):
+            env[name] = v                                                 # static: no let
+            return self.seq(rest, env, tail)
+        if v.ty not in self.RUNTIME:
+            raise Unsupported(f"assignment of a {v.ty}")
+        cn = self.cn(name)
+        env[name] = Val(cn, v.ty, static=v.static, axid=v.axid, cls=v.cls)
+        if v.t == cn:
+            return self.seq(rest, env, tail)
+        after = self.seq(rest, env, tail)
+        if after == [cn]:                                                 # let x := e in x
+            return [strip_parens(v.t)]
+        return [f"let {cn} := {strip_parens(v.t)} in"] + after
+
+    def ret(self, v: Val) -> str:
+        raise NotImplementedError
+
+    def unres(self, v: Val) -> Val:
+        """a call that may raise, used inside an expression: it is evaluated (and may leave) before the statement"""
+        if v.ty != "RES":
+            return v
+        if not self.monadic or v.res not in ("GATE", "BSRG", "L") or self.in_cond:
+            raise Unsupported("a call that may raise inside a (conditional) expression")
+        self.nres += 1
+        name = f"r{self.nres}"
+        self.hoisted.append((name, v.t))
+        return Val(name, "L" if v.res == "L" else "GATE", cls=BSR_CLS if v.res == "BSRG" else None)
+
+    def bind_result(self, names: list[str], v: Val, env: dict, rest, tail) -> list[str]:
+        """x = f(...) where f may raise: the exception propagates"""
+        if not self.monadic:
+            raise Unsupported("a call that may raise in a function modelled as total")
+        env = dict(env)
+        if v.res in ("L", "GATE", "BSRG") and len(names) == 1:
+            env[names[0]] = Val(self.cn(names[0]), "L" if v.res == "L" else "GATE",
+                                cls=BSR_CLS if v.res == "BSRG" else None)
+            pat = self.cn(names[0])
+        elif v.res == "F3" and len(names) == 3:
+            for n in names:
+                env[n] = Val(self.cn(n), "F")
+            pat = "(" + ", ".join(self.cn(n) for n in names) + ")"
+        else:
+            raise Unsupported(f"binding {len(names)} names to a result of {v.res}")
+        return [f"match {v.t} with", "| Err e => Err e", f"| Ok {pat} =>"] + ind(self.seq(rest, env, tail)) + ["end"]
+
+    def seq(self, stmts, env: dict, tail) -> list[str]:
+        saved, self.hoisted = self.hoisted, []
+        try:
+            lines = self.seq1(stmts, env, tail)
+            mine = self.hoisted
+        finally:
+            self.hoisted = saved
+        for name, term in reversed(mine):
+            lines = [f"match {term} with", "| Err e => Err e", f"| Ok {name} =>"] + ind(lines) + ["end"]
+        return lines
+
+    def seq1(self, stmts, env: dict, tail) -> list[str]:
+        if not stmts:
+            if tail is None:
+                raise Unsupported("a path falls off the end of the function")
+            return tail(env)
+        s, rest = stmts[0], stmts[1:]
+        if isinstance(s, ast.Expr) and isinstance(s.value, ast.Constant) and isinstance(s.value.value, str):
+            return self.seq(rest, env, tail)
+        if isinstance(s, ast.Pass):
+            return self.seq(rest, env, tail)
+        if isinstance(s, ast.Return):
+            if rest:
+                raise Unsupported("statements after return")
+            if s.value is None:
+                raise Unsupported("bare return")
+            return [self.ret(self.ex(s.value, env))]
+        if isinstance(s, ast.Raise):
+            if rest:
+                raise Unsupported("statements after raise")
+            if not self.monadic:
+                raise Unsupported("raise in a function modelled as total")
+            x = s.exc
+            if isinstance(x, ast.Call):
+                x = x.func
+            if not (isinstance(x, ast.Name) and x.id in ERRS) or s.cause is not None:
+                raise Unsupported(f"raise {ast.unparse(s)[:40]}")
+            return [f"Err {ERRS[x.id]}"]
+        if isinstance(s, ast.Assign):
+            if len(s.targets) != 1:
+                raise Unsupported("chained assignment")
+            return self.assign(s.targets[0], s.value, env, rest, tail)
+        if isinstance(s, ast.AnnAssign):
+            if s.value is None or not isinstance(s.target, ast.Name):
+                raise Unsupported("annotated assignment shape")
+            return self.assign(s.target, s.value, env, rest, tail)
+        if isinstance(s, ast.AugAssign):
+            if not isinstance(s.target, ast.Name) or s.target.id not in env:
+                raise Unsupported("augmented assignment target")
+            v = self.binop(s.op, env[s.target.id], self.ex(s.value, env))
+            return self.bind(s.target.id, v, env, rest, tail)
+        if isinstance(s, ast.Expr):
+            return self.expr_stmt(s, env, rest, tail)
+        if isinstance(s, ast.If):
+            return self.if_stmt(s, env, rest, tail)
+        raise Unsupported(f"statement {type(s).__name__}")
+
+    def expr_stmt(self, s, env, rest, tail) -> list[str]:
+        c = s.value
+        if isinstance(c, ast.Call) and isinstance(c.func, ast.Attribute) and c.func.attr == "append" and \
+                isinstance(c.func.value, ast.Name) and len(c.args) == 1 and not c.keywords:      # l.append(x)
+            l, x = self.ex(c.func.value, env), self.ex(c.args[0], env)
+            if l.ty == "L" and l.t is not None and x.ty == "GATE":
+                return self.bind(c.func.value.id, Val(f"({l.t} ++ [{strip_parens(x.t)}])%list", "L"), env, rest, tail)
+        raise Unsupported(f"expression statement {ast.unparse(s)[:60]}")
+
+    def assign(self, target, value, env, rest, tail) -> list[str]:
+        if isinstance(target, ast.Name):
+            return self.bind(target.id, self.ex(value, env), env, rest, tail)
+        if isinstance(target, ast.Tuple) and all(isinstance(t, ast.Name) for t in target.elts):
+            v = self.ex(value, env)
+            names = [t.id for t in target.elts]
+            if v.ty == "V" and len(names) == 3:                          # iterating an Axis: value[0], [1], [2]
+                env = dict(env)
+                for n, p in zip(names, ("ax_x", "ax_y", "ax_z")):
+                    env[n] = Val(f"({p} {v.t})", "F")
+                return self.seq(rest, env, tail)
+            if v.ty == "TUPLE" and len(v.items) == len(names):
+                env2 = dict(env)
+                lines: list[str] = []
+                for n, it in zip(names, v.items):                        # the right-hand side is evaluated first
+                    if it.ty not in self.RUNTIME:
+                        raise Unsupported("tuple assignment of a static value")
+                    env2[n] = Val(self.cn(n), it.ty)
+                pat = ", ".join(self.cn(n) for n in names)
+                val = ", ".join(strip_parens(it.t) for it in v.items)
+                return [f"let '({pat}) := ({val}) in"] + self.seq(rest, env2, tail)
+            if v.ty == "RES":
+                return self.bind_result(names, v, env, rest, tail)
+            raise Unsupported(f"tuple assignment from {v.ty}")
+        if isinstance(target, ast.Subscript) and isinstance(target.value, ast.Name):   # l[i] = x
+            l, i, x = self.ex(target.value, env), self.ex(target.slice, env), self.ex(value, env)
+            if l.ty != "L" or l.t is None or i.ty != "I" or i.static < 0 or x.ty != "GATE":
+                raise Unsupported(f"item assignment {ast.unparse(target)[:40]}")
+            self.notes.append(f"`{ast.unparse(target)} = ...`: IndexError on a shorter list is not modelled "
+                              "(Matrix.list_set leaves it unchanged, as the hand model does)")
+            return self.bind(target.value.id, Val(f"(list_set {l.t} {i.static} {x.t})", "L"), env, rest, tail)
+        raise Unsupported(f"assignment target {ast.unparse(target)[:40]}")
+
+    def if_stmt(self, s: ast.If, env, rest, tail) -> list[str]:
+        c = self.ex(s.test, env)
+        if c.ty != "B":
+            raise Unsupported(f"condition of type {c.ty}")
+        if c.static is not None:                                         # e.g. isinstance of a known class
+            self.notes.append(f"`{ast.unparse(s.test)[:70]}` is statically {c.static}: "
+                              f"the {'else' if c.static else 'then'} branch is not translated")
+            return self.seq((s.body if c.static else s.orelse) + rest, env, tail)
+        tb, eb = self.terminates(s.body), self.terminates(s.orelse)
+        env_then = self.with_facts(env, s.test)
+        if tb and eb:
+            if rest:
+                raise Unsupported("statements after an if whose branches both leave")
+            a, b = self.seq(s.body, env_then, None), self.seq(s.orelse, env, None)
+            return [f"if {strip_parens(c.t)} then ("] + ind(a) + [") else ("] + ind(b) + [")"]
+        if tb or eb:
+            a = self.seq(s.body if tb else s.orelse, env_then if tb else env, None)
+            b = self.seq((s.orelse if tb else s.body) + rest, env if tb else env_then, tail)
+            cond = strip_parens(c.t) if tb else f"negb {c.t}"
+            if len(a) == 1:
+                return [f"if {cond} then {a[0]} else"] + b
+            return [f"if {cond} then ("] + ind(a) + [") else"] + b
+        if self.has_exit(s.body) or self.has_exit(s.orelse):
+            raise Unsupported("a branch that leaves the function on some paths only")
+        # join: first pass to learn what each branch defines, second pass to emit
+        ends: list[dict] = []
+
+        def capture(e):
+            ends.append(e)
+            return ["?"]
+
+        self.seq(s.body, env_then, capture)
+        self.seq(s.orelse, env, capture)
+        names = []
+        for n in self.assigned(s.body + s.orelse):
+            if all(n in e for e in ends):
+                vs = [e[n] for e in ends]
+                if all(v.ty in self.RUNTIME or v.ty == "I" for v in vs) and any(v is not env.get(n) for v in vs):
+                    ty = vs[0].ty
+                    for v in vs[1:]:
+                        ty = self.join_ty(Val(None, ty), v)
+                    names.append((n, ty))
+                elif any(v is not env.get(n) for v in vs) and not all(v.ty == "S" for v in vs):
+                    raise Unsupported(f"variable {n} cannot be joined after the if")
+        if not names:
+            return self.seq(rest, env, tail)
+
+        def tuple_tail(e):
+            return ["(" + ", ".join(strip_parens(self.as_ty(e[n], ty)) for n, ty in names) + ")"
+                    if len(names) > 1 else self.as_ty(e[names[0][0]], names[0][1])]
+
+        a, b = self.seq(s.body, env_then, tuple_tail), self.seq(s.orelse, env, tuple_tail)
+        env2 = {k: v for k, v in env.items()}
+        for n in self.assigned(s.body + s.orelse):                       # what only one branch defines is gone
+            if n not in [x for x, _ in names] and any(e.get(n) is not env.get(n) for e in ends):
+                if all(n in e and e[n].ty == "S" for e in ends):
+                    env2[n] = ends[0][n]
+                else:
+                    env2.pop(n, None)
+        for n, ty in names:
+            env2[n] = Val(self.cn(n), ty)
+        pat = "'(" + ", ".join(self.cn(n) for n, _ in names) + ")" if len(names) > 1 else self.cn(names[0][0])
+        if len(a) == 1 and len(b) == 1:
+            head = [f"let {pat} := if {strip_parens(c.t)} then {a[0]} else {b[0]} in"]
+        else:
+            head = [f"let {pat} :=", f"  if {strip_parens(c.t)} then ("] + ind(ind(a)) + ["  ) else ("] + ind(ind(b)) + ["  ) in"]
+        return head + self.seq(rest, env2, tail)
+
+
+def ind(lines: list[str]) -> list[str]:
+    return ["  " + l for l in lines]
+
+
+def strip_parens(t: str) -> str:
+    """drop one pair of outer parentheses when they enclose the whole term (and it is not a tuple)"""
+    if t.startswith("(") and t.endswith(")"):
+        depth = 0
+        for i, ch in enumerate(t):
+            depth += ch == "("
+            depth -= ch == ")"
+            if depth == 0 and i < len(t) - 1:
+                return t
+            if depth == 1 and ch == ",":
+                return t
+        return t[1:-1]
+    return t
+
+
+INFIX_TOKENS = {"+", "-", "*", "/", "<?", "<=?", "=?", "&&", "||", "if", "then", "else", "let", "in", ":=", "match",
+                "fun", "=>"}
+
+
+def opnd(t: str) -> str:
+    """operand of an infix operator: a function application needs no parentheses there"""
+    inner = strip_parens(t)
+    if inner is t:
+        return t
+    depth, tok, toks = 0, "", []
+    for ch in inner + " ":
+        if depth == 0 and ch == " ":
+            toks.append(tok)
+            tok = ""
+        elif depth == 0 and ch != "(":
+            tok += ch
+        depth += ch == "("
+        depth -= ch == ")"
+    return t if any(x in INFIX_TOKENS for x in toks) else inner
+
+
+class Kernel(KTrans):
+    """KTrans with the rendering of `return` for one kernel"""
+
+    def __init__(self, ctx: Ctx, mod: Module, monadic: bool, notes: list[str], ret_kind: str):
+        super().__init__(ctx, mod, monadic, notes)
+        self.ret_kind = ret_kind
+
+    def inline(self, m, fn, actuals):
+        sub = KTrans(self.ctx, m, self.monadic, self.notes)
+        sub.depth = self.depth + 1
+        return KTrans.inline(sub, m, fn, actuals)
+
+    def ret(self, v: Val) -> str:
+        k = self.ret_kind
+        if k == "F3":
+            if v.ty == "V" and v.items:
+                t = v.t
+            elif v.ty == "TUPLE" and len(v.items) == 3:
+                t = "(" + ", ".join(strip_parens(self.F(i)) for i in v.items) + ")"
+            else:
+                raise Unsupported(f"return of {v.ty}, a triple of floats is expected")
+        elif k == "B":
+            t = self.Bt(v)
+        elif k == "GATE":
+            if v.ty != "GATE":
+                raise Unsupported(f"return of {v.ty}, a gate is expected")
+            t = v.t
+        elif k == "GATES":
+            if v.ty != "L" or v.t is None:
+                raise Unsupported(f"return of {v.ty}, a list of gates is expected")
+            t = v.t
+        elif k == "DITEMS":
+            if v.ty != "L":
+                raise Unsupported(f"return of {v.ty}, a list of gates is expected")
+            t = "[DSame]" if v.static == "SAME" else f"(news {v.t})"
+        else:
+            raise Unsupported(f"return kind {k}")
+        return f"Ok {t}" if self.monadic else strip_parens(t)
+
+
+def field_binders(prefix: str, with_gi: bool) -> set[str]:
+    return {f"{prefix}_{f}" for f in ("qubit", "axis", "angle", "phase")} | ({f"{prefix}_gi"} if with_gi else set())
+
+
+def check_params(fn: ast.FunctionDef, n: int) -> list[str]:
+    a = fn.args
+    if a.vararg or a.kwarg or a.kwonlyargs or a.posonlyargs or len(a.args) != n:
+        raise Unsupported(f"parameters of {fn.name}")
+    return [x.arg for x in a.args]
+
+
+def aba_axes(ctx: Ctx, cls: str) -> tuple[str, str]:
+    """(ia, ib) of a named ABA decomposer, from its `ra` / `rb` properties and ABADecomposer._gate_list"""
+    m = ctx.mod("decomposer/aba_decomposer.py")
+    out = []
+    for prop in ("ra", "rb"):
+        fn = m.func(prop, cls)
+        b = body_of(fn)
+        if len(b) != 1 or not isinstance(b[0], ast.Return) or not isinstance(b[0].value, ast.Name):
+            raise Unsupported(f"{cls}.{prop}")
+        ax = ROT_GATES.get(m.alias.get(b[0].value.id, ""))
+        if ax is None:
+            raise Unsupported(f"{cls}.{prop} is not Rx, Ry or Rz")
+        out.append(ax)
+    return out[0], out[1]
+
+
+def pin_aba_indices(m: Module) -> None:
+    """index_a / index_b are the positions of ra / rb in [Rx, Ry, Rz]; the unused index is the third one"""
+    m.pinned("ABADecomposer._find_unused_index", unparse_body(m.func("_find_unused_index", "ABADecomposer")),
+             "return ({0, 1, 2} - {self.index_a, self.index_b}).pop()")
+    m.pinned("ABADecomposer.__init__", unparse_body(m.func("__init__", "ABADecomposer")),
+             "self.index_a = self._gate_list.index(self.ra)\nself.index_b = self._gate_list.index(self.rb)")
+    gl = [s for s in m.scope("ABADecomposer") if isinstance(s, ast.AnnAssign) and isinstance(s.target, ast.Name)
+          and s.target.id == "_gate_list"]
+    if len(gl) != 1 or gl[0].value is None:
+        raise Unsupported("ABADecomposer._gate_list")
+    m.pinned("ABADecomposer._gate_list", ast.unparse(gl[0].value), "[Rx, Ry, Rz]")
+    for n, ax in (("Rx", "AxX"), ("Ry", "AxY"), ("Rz", "AxZ")):
+        if ROT_GATES.get(m.alias.get(n, "")) != ax:
+            raise Unsupported(f"{n} in aba_decomposer.py is not default_gates.{n}")
+
+
+def k_aba_angles(ctx: Ctx, notes) -> tuple[str, list[str]]:
+    m = ctx.mod("decomposer/aba_decomposer.py")
+    fn = m.func("get_decomposition_angles", "ABADecomposer")
+    pin_aba_indices(m)
+    me, alpha, axis = check_params(fn, 3)
+    k = Kernel(ctx, m, True, notes, "F3")
+    k.taken = {"ia", "ib"}
+    env = {me: aba_self(k, m), alpha: Val(cname(alpha), "F"), axis: Val(cname(axis), "V")}
+    return (f"(ia ib : axis_id) ({cname(alpha)} : T) ({cname(axis)} : axis3 T) : result (T * T * T)",
+            k.seq(body_of(fn), env, None))
+
+
+def aba_self(k: KTrans, m: Module) -> Val:
+    """`self` of an ABADecomposer with axes ia, ib"""
+    cls = m.dotted + ".ABADecomposer"
+    k.methods[(cls, "_find_unused_index")] = \
+        lambda: Val("(axis_index (unused_axis ia ib))", "Z", axid="(unused_axis ia ib)")
+    # tied separately by aba_angles_ok
+    k.methods[(cls, "get_decomposition_angles")] = \
+        lambda alpha, axis: Val(f"aba_angles N ia ib {k.F(alpha)} {k.Vt(axis)}", "RES", res="F3")
+    # self.ra is _gate_list[index_a] (pinned): the rotation gate about axis ia
+    k.methods[(cls, "ra")] = lambda q, x: Val(f"(rot_gate N ia {k.Zt(q)} {k.F(x)})", "GATE")
+    k.methods[(cls, "rb")] = lambda q, x: Val(f"(rot_gate N ib {k.Zt(q)} {k.F(x)})", "GATE")
+    return Val(None, "OBJ", cls=cls, fields={"index_a": Val("(axis_index ia)", "Z", axid="ia"),
+                                              "index_b": Val("(axis_index ib)", "Z", axid="ib")})
+
+
+def k_aba_gates(ctx: Ctx, notes) -> tuple[str, list[str]]:
+    m = ctx.mod("decomposer/aba_decomposer.py")
+    fn = m.func("decompose", "ABADecomposer")
+    pin_aba_indices(m)
+    me, g = check_params(fn, 2)
+    k = Kernel(ctx, m, True, notes, "GATES")
+    k.taken = {"ia", "ib"} | field_binders(cname(g), False)
+    env = {me: aba_self(k, m), g: bsr_obj(cname(g), False)}
+    k.subject = env[g]
+    return (f"(ia ib : axis_id) {bsr_binders(cname(g), False)} : result (list (gate T * ginfo T))",
+            k.seq(body_of(fn), env, None))
+
+
+def k_mckay(ctx: Ctx, notes) -> tuple[str, list[str]]:
+    m = ctx.mod("decomposer/mckay_decomposer.py")
+    fn = m.func("decompose", "McKayDecomposer")
+    me, g = check_params(fn, 2)
+    k = Kernel(ctx, m, True, notes, "DITEMS")
+    k.taken = field_binders(cname(g), True)
+    env = {me: Val(None, "OBJ", cls=m.dotted + ".McKayDecomposer", fields={}), g: bsr_obj(cname(g), True)}
+    k.subject = env[g]
+    return (f"{bsr_binders(cname(g), True)} : result (list (ditem T))", k.seq(body_of(fn), env, None))
+
+
+def k_cnot(ctx: Ctx, notes) -> tuple[str, list[str]]:
+    m = ctx.mod("decomposer/cnot_decomposer.py")
+    fn = m.func("decompose", "CNOTDecomposer")
+    me, g = check_params(fn, 2)
+    k = Kernel(ctx, m, True, notes, "DITEMS")
+    p = cname(g)
+    k.taken = field_binders(p + "_target", False) | {f"{p}_control_qubit"}
+    target = bsr_obj(p + "_target", False)
+    gobj = Val(None, "OBJ", cls=IR + "ControlledGate",
+               fields={"control_qubit": Val(f"{p}_control_qubit", "Z"), "target_gate": target})
+    env = {me: Val(None, "OBJ", cls=m.dotted + ".CNOTDecomposer", fields={}), g: gobj}
+    k.subject = gobj
+    notes.append("the generator of the target gate is not part of the model (Ctrl c g): it is `anon` where a pair is needed")
+    return (f"({p}_control_qubit : Z) {bsr_binders(p + '_target', False)} : result (list (ditem T))",
+            k.seq(body_of(fn), env, None))
+
+
+def k_compose(ctx: Ctx, notes) -> tuple[str, list[str]]:
+    m = ctx.mod("merger/general_merger.py")
+    fn = m.func("compose_bloch_sphere_rotations")
+    a, b = check_params(fn, 2)
+    k = Kernel(ctx, m, True, notes, "GATE")
+    k.taken = field_binders(cname(a), True) | field_binders(cname(b), True)
+    env = {a: bsr_obj(cname(a), True), b: bsr_obj(cname(b), True)}
+    return (f"{bsr_binders(cname(a), True)} {bsr_binders(cname(b), True)} : result (gate T * ginfo T)",
+            k.seq(body_of(fn), env, None))
+
+
+def k_is_identity(ctx: Ctx, notes) -> tuple[str, list[str]]:
+    m = ctx.mod("ir.py")
+    fn = m.func("is_identity", "BlochSphereRotation")
+    (me,) = check_params(fn, 1)
+    k = Kernel(ctx, m, False, notes, "B")
+    k.taken = field_binders(cname(me), False)
+    return (f"{bsr_binders(cname(me), False)} : bool", k.seq(body_of(fn), {me: bsr_obj(cname(me), False)}, None))
+
+
+def k_bsr_eq(ctx: Ctx, notes) -> tuple[str, list[str]]:
+    m = ctx.mod("ir.py")
+    fn = m.func("__eq__", "BlochSphereRotation")
+    me, other = check_params(fn, 2)
+    k = Kernel(ctx, m, False, notes, "B")
+    k.taken = field_binders(cname(me), False) | field_binders(cname(other), False)
+    env = {me: bsr_obj(cname(me), False), other: bsr_obj(cname(other), False)}
+    return (f"{bsr_binders(cname(me), False)} {bsr_binders(cname(other), False)} : bool",
+            k.seq(body_of(fn), env, None))
+
+
+# ---- can1: complex 2x2 matrices with entries in {0, 1, -1, i, -i} times real scalars.
+# numpy evaluates  cos * identity(2) - 1j * sin * (nx * X + ny * Y + nz * Z)  entry by entry; here the same
+# evaluation is done symbolically, entry by entry, in the order of the source, and simplified ONLY by
+#   0 * x = x * 0 = 0,  1 * x = x * 1 = x,  (-1) * x = -x,  0 + x = x + 0 = x,  x - 0 = x,  0 - x = -x,  -(-x) = x
+# (exact over the reals; on doubles they can change the sign of a zero and the result on non-finite inputs only).
+
+R0, R1 = (0, None), (1, None)
+
+
+def r_render(a) -> str:
+    c, t = a
+    if c == 0:
+        return "(nofZ N 0)"
+    if t is None:
+        return "(nofZ N 1)" if c > 0 else "(- (nofZ N 1))"
+    return t if c > 0 else f"(- {t})"
+
+
+def r_neg(a):
+    return (-a[0], a[1])
+
+
+def r_mul(a, b):
+    if a[0] == 0 or b[0] == 0:
+        return R0
+    if a[1] is None:
+        return (a[0] * b[0], b[1])
+    if b[1] is None:
+        return (a[0] * b[0], a[1])
+    return (a[0] * b[0], f"({a[1]} * {b[1]})")
+
+
+def r_add(a, b):
+    if b[0] == 0:
+        return a
+    if a[0] == 0:
+        return b
+    return (1, f"({r_render(a)} + {r_render(b)})")
+
+
+def r_sub(a, b):
+    if b[0] == 0:
+        return a
+    if a[0] == 0:
+        return r_neg(b)
+    return (1, f"({r_render(a)} - {r_render(b)})")
+
+
+def c_general(z) -> bool:
+    return z[0] == "c" and z[1][0] != 0 and z[2][0] != 0
+
+
+def c_render(z) -> str:
+    return z[1] if z[0] == "o" else f"({strip_parens(r_render(z[1]))}, {strip_parens(r_render(z[2]))})"
+
+
+def c_op(op: str, x, y):
+    """complex scalars ('c', re, im); ('o', term) is an opaque product that is only returned"""
+    if x[0] == "o" or y[0] == "o":
+        raise Unsupported("arithmetic on a complex product")
+    if op == "+":
+        return ("c", r_add(x[1], y[1]), r_add(x[2], y[2]))
+    if op == "-":
+        return ("c", r_sub(x[1], y[1]), r_sub(x[2], y[2]))
+    if op == "*":
+        if c_general(x) and c_general(y):
+            return ("o", f"cmul N {c_render(x)} {c_render(y)}")          # Num.cmul: (ac - bd, ad + bc)
+        return ("c", r_sub(r_mul(x[1], y[1]), r_mul(x[2], y[2])), r_add(r_mul(x[1], y[2]), r_mul(x[2], y[1])))
+    raise Unsupported(f"complex operator {op}")
+
+
+class Can1(KTrans):
+    def cval(self, e, env, senv):
+        """('c', re, im) | ('o', term) | ('m', rows)"""
+        if isinstance(e, ast.Name) and e.id in senv:
+            return senv[e.id]
+        if isinstance(e, ast.Constant) and isinstance(e.value, complex):
+            if e.value.real != 0 or e.value.imag != 1:
+                raise Unsupported(f"complex literal {e.value!r}")
+            return ("c", R0, R1)
+        try:
+            v = self.ex(e, env)
+            if v.ty == "I" and v.static in (0, 1, -1):
+                return ("c", (v.static, None), R0)
+            if v.ty in ("F", "I"):
+                return ("c", (1, self.F(v)), R0)
+        except Unsupported:
+            pass
+        if isinstance(e, ast.UnaryOp) and isinstance(e.op, ast.USub):
+            x = self.cval(e.operand, env, senv)
+            return self.bop("-", ("c", R0, R0), x)
+        if isinstance(e, ast.BinOp):
+            op = {ast.Add: "+", ast.Sub: "-", ast.Mult: "*"}.get(type(e.op))
+            if op is None:
+                raise Unsupported(f"matrix operator {type(e.op).__name__}")
+            return self.bop(op, self.cval(e.left, env, senv), self.cval(e.right, env, senv))
+        if isinstance(e, ast.Name):
+            cn = self.canon(e, env)
+            if cn and cn.startswith(self.mod.dotted + "."):
+                return self.module_matrix(e.id)
+        if isinstance(e, ast.Call):
+            cn = self.canon(e.func, env)
+            if cn == "numpy.identity" and len(e.args) == 1 and not e.keywords and \
+                    isinstance(e.args[0], ast.Constant) and e.args[0].value == 2:
+                return ("m", [[("c", R1, R0), ("c", R0, R0)], [("c", R0, R0), ("c", R1, R0)]])
+            if cn == "numpy.asarray" and len(e.args) == 1 and [k.arg for k in e.keywords] in ([], ["dtype"]):
+                if e.keywords and ast.unparse(e.keywords[0].value) != "np.complex128":
+                    raise Unsupported("dtype")
+                return self.cval(e.args[0], env, senv)
+            if cn == "cmath.rect" and len(e.args) == 2 and not e.keywords:     # r * (cos phi + i sin phi)
+                r = self.cval(e.args[0], env, senv)
+                phi = self.F(self.ex(e.args[1], env))
+                if r[0] != "c" or r[2][0] != 0:
+                    raise Unsupported("cmath.rect modulus")
+                return ("c", r_mul(r[1], (1, f"(ncos N {phi})")), r_mul(r[1], (1, f"(nsin N {phi})")))
+        raise Unsupported(f"matrix expression {ast.unparse(e)[:60]}")
+
+    def bop(self, op, x, y):
+        if x[0] == "m" and y[0] == "m":
+            if op == "*":
+                raise Unsupported("elementwise product of two matrices")
+            return ("m", [[c_op(op, a, b) for a, b in zip(ra, rb)] for ra, rb in zip(x[1], y[1])])
+        if x[0] == "m":
+            return ("m", [[c_op(op, a, y) for a in row] for row in x[1]])
+        if y[0] == "m":
+            return ("m", [[c_op(op, x, b) for b in row] for row in y[1]])
+        return c_op(op, x, y)
+
+    def module_matrix(self, name: str):
+        """X = np.array([[0, 1], [1, 0]]) and the like, at module level"""
+        val = [s.value for s in self.mod.tree.body if isinstance(s, ast.Assign) and len(s.targets) == 1
+               and isinstance(s.targets[0], ast.Name) and s.targets[0].id == name]
+        if len(val) != 1:
+            raise Unsupported(f"module constant {name}")
+        c = val[0]
+        if not (isinstance(c, ast.Call) and self.canon(c.func, {}) == "numpy.array" and len(c.args) == 1
+                and not c.keywords and isinstance(c.args[0], ast.List) and len(c.args[0].elts) == 2):
+            raise Unsupported(f"module constant {name} is not a 2x2 np.array literal")
+        rows = []
+        for r in c.args[0].elts:
+            if not (isinstance(r, ast.List) and len(r.elts) == 2):
+                raise Unsupported(f"row of {name}")
+            row = []
+            for x in r.elts:
+                neg = isinstance(x, ast.UnaryOp) and isinstance(x.op, ast.USub)
+                k = x.operand if neg else x
+                if not isinstance(k, ast.Constant) or isinstance(k.value, bool):
+                    raise Unsupported(f"entry of {name}")
+                s = -1 if neg else 1
+                if isinstance(k.value, int) and k.value in (0, 1):
+                    row.append(("c", (s * k.value, None), R0))
+                elif isinstance(k.value, complex) and k.value == 1j:
+                    row.append(("c", R0, (s, None)))
+                else:
+                    raise Unsupported(f"entry {ast.unparse(x)} of {name}")
+            rows.append(row)
+        return ("m", rows)
+
+
+def k_can1(ctx: Ctx, notes) -> tuple[str, list[str]]:
+    m = ctx.mod("utils/matrix_expander.py")
+    fn = m.func("can1")
+    if fn.args.vararg or fn.args.kwarg or fn.args.kwonlyargs or fn.args.posonlyargs or len(fn.args.args) != 3:
+        raise Unsupported("parameters of can1")
+    axis, angle, phase = (a.arg for a in fn.args.args)
+    k = Can1(ctx, m, False, notes)
+    env = {axis: Val(cname(axis), "V"), angle: Val(cname(angle), "F"), phase: Val(cname(phase), "F")}
+    senv: dict = {}
+    result = None
+    body = body_of(fn)
+    for i, s in enumerate(body):
+        if isinstance(s, ast.Assign) and len(s.targets) == 1 and isinstance(s.targets[0], ast.Tuple):
+            v = k.ex(s.value, env)
+            names = [t.id for t in s.targets[0].elts if isinstance(t, ast.Name)]
+            if v.ty != "V" or len(names) != 3 or len(s.targets[0].elts) != 3:
+                raise Unsupported("tuple assignment in can1")
+            for n, p in zip(names, ("ax_x", "ax_y", "ax_z")):
+                env[n] = Val(f"({p} {v.t})", "F")
+                senv.pop(n, None)
+        elif isinstance(s, ast.Assign) and len(s.targets) == 1 and isinstance(s.targets[0], ast.Name):
+            senv[s.targets[0].id] = k.cval(s.value, env, senv)
+            env.pop(s.targets[0].id, None)
+        elif isinstance(s, ast.Return) and s.value is not None and i == len(body) - 1:
+            result = k.cval(s.value, env, senv)
+        else:
+            raise Unsupported(f"statement {type(s).__name__} in can1")
+    if result is None or result[0] != "m":
+        raise Unsupported("can1 does not return a 2x2 matrix")
+    e = [[c_render(z) for z in row] for row in result[1]]
+    notes.append("can1: entries simplified by the ring identities of 0 and 1 only (see translate.py, `can1`)")
+    return (f"({cname(axis)} : axis3 T) ({cname(angle)} {cname(phase)} : T) : list (list (T * T))",
+            [f"[[{e[0][0]};", f"  {e[0][1]}];", f" [{e[1][0]};", f"  {e[1][1]}]]"])
+
+
+KERNELS_HEADER = """(* generated by translator/translate.py from the numeric kernels of the Python source:
+     decomposer/aba_decomposer.py  ABADecomposer.get_decomposition_angles      -> gen_aba_angles
+     merger/general_merger.py      compose_bloch_sphere_rotations               -> gen_compose
+     utils/matrix_expander.py      can1                                         -> gen_can1
+     ir.py                         BlochSphereRotation.is_identity, .__eq__     -> gen_is_identity, gen_bsr_eq
+     decomposer/mckay_decomposer.py McKayDecomposer.decompose                   -> gen_mckay_decompose
+     decomposer/cnot_decomposer.py CNOTDecomposer.decompose                     -> gen_cnot_decompose
+   Statement by statement; local variables keep their Python names.  Gen/KernelCheck.v proves each of them equal
+   to the hand-written model.  A kernel the translator cannot handle is a FALLBACK definition that is not equal. *)
+From Coq Require Import ZArith List Bool String.
+Import ListNotations.
+From OSQ Require Import Num IR Construct DefaultTable Matrix Check ABA Merge McKay CNOTDec Constants.
+Open Scope string_scope.
+
+Section Kernels.
+  Context {T : Type} (N : Num T).
+  Notation "x + y" := (nadd N x y).
+  Notation "x - y" := (nsub N x y).
+  Notation "x * y" := (nmul N x y).
+  Notation "x / y" := (ndiv N x y).
+  Notation "- x" := (nneg N x).
+  Notation "x <? y" := (nltb N x y).
+  Notation "x <=? y" := (nleb N x y).
+  Notation "x =? y" := (neqb N x y).
+
+  (* common.ATOL, from Gen/Constants.v *)
+  Definition gen_atol : T := nofZ N gen_atol_num / nofZ N gen_atol_den.
+
+  (* numpy arithmetic on 3-vectors is componentwise *)
+  Definition vscale (k : T) (v : axis3 T) : axis3 T := (k * ax_x v, k * ax_y v, k * ax_z v).
+  Definition vadd (u v : axis3 T) : axis3 T := (ax_x u + ax_x v, ax_y u + ax_y v, ax_z u + ax_z v).
+  Definition vsub (u v : axis3 T) : axis3 T := (ax_x u - ax_x v, ax_y u - ax_y v, ax_z u - ax_z v).
+  Definition vround (d : Z) (v : axis3 T) : axis3 T := (nround N d (ax_x v), nround N d (ax_y v), nround N d (ax_z v)).
+
+  (* l[i] and the attributes of a gate that is dynamically a BlochSphereRotation (only under guards) *)
+  Definition gate_at (l : list (gate T * ginfo T)) (i : nat) : gate T * ginfo T := nth i l (Mat [] [], anon).
+  Definition gate_is_bsr (x : gate T * ginfo T) : bool := match fst x with BSR _ _ _ _ => true | _ => false end.
+  Definition gate_angle (x : gate T * ginfo T) : T := match fst x with BSR _ _ a _ => a | _ => nofZ N 0 end.
+  Definition gate_axis (x : gate T * ginfo T) : axis3 T :=
+    match fst x with BSR _ ax _ _ => ax | _ => (nofZ N 0, nofZ N 0, nofZ N 0) end.
+"""
+
+# name, translator, origin, fallback signature, fallback body
+KERNELS = [
+    ("gen_aba_angles", k_aba_angles, "decomposer/aba_decomposer.py: ABADecomposer.get_decomposition_angles",
+     "(ia ib : axis_id) (alpha : T) (axis : axis3 T) : result (T * T * T)", "Err EOther"),
+    ("gen_aba_gates", k_aba_gates, "decomposer/aba_decomposer.py: ABADecomposer.decompose (on a BlochSphereRotation)",
+     f"(ia ib : axis_id) {bsr_binders('g', False)} : result (list (gate T * ginfo T))", "Err EOther"),
+    ("gen_compose", k_compose, "merger/general_merger.py: compose_bloch_sphere_rotations",
+     f"{bsr_binders('a', True)} {bsr_binders('b', True)} : result (gate T * ginfo T)", "Err EOther"),
+    ("gen_can1", k_can1, "utils/matrix_expander.py: can1",
+     "(axis : axis3 T) (angle phase : T) : list (list (T * T))", "[]"),
+    ("gen_is_identity", k_is_identity, "ir.py: BlochSphereRotation.is_identity",
+     f"{bsr_binders('self', False)} : bool", "negb (is_identity N (BSR self_qubit self_axis self_angle self_phase))"),
+    ("gen_bsr_eq", k_bsr_eq, "ir.py: BlochSphereRotation.__eq__",
+     f"{bsr_binders('self', False)} {bsr_binders('other', False)} : bool",
+     "negb (bsr_eq N self_qubit self_axis self_angle self_phase other_qubit other_axis other_angle other_phase)"),
+    ("gen_mckay_decompose", k_mckay, "decomposer/mckay_decomposer.py: McKayDecomposer.decompose (on a BlochSphereRotation)",
+     f"{bsr_binders('g', True)} : result (list (ditem T))", "Err EOther"),
+    ("gen_cnot_decompose", k_cnot, "decomposer/cnot_decomposer.py: CNOTDecomposer.decompose (on a controlled BlochSphereRotation)",
+     f"(g_control_qubit : Z) {bsr_binders('g_target', False)} : result (list (ditem T))", "Err EOther"),
+]
+
+
+def wrap(line: str, width: int = 116) -> list[str]:
+    """break a long line at spaces of the smallest nesting depth that makes every piece fit"""
+    if len(line) <= width:
+        return [line]
+    indent = len(line) - len(line.lstrip())
+    body, room = line.strip(), width - indent - 4
+    depth, cands = 0, []
+    for i, ch in enumerate(body):
+        if ch in "([":
+            depth += 1
+        elif ch in ")]":
+            depth -= 1
+        elif ch == " ":
+            cands.append((i, depth))
+    pieces = [body]
+    for d in range(max((x for _, x in cands), default=0) + 1):
+        pieces, start, last = [], 0, None
+        for i in [i for i, dd in cands if dd <= d] + [len(body)]:
+            if i - start > room and last is not None and last > start:
+                pieces.append(body[start:last])
+                start = last + 1
+            last = i
+        pieces.append(body[start:])
+        if all(len(x) <= room for x in pieces):
+            break
+    return [" " * indent + pieces[0]] + [" " * (indent + 4) + x for x in pieces[1:]]
+
+
+def translate_kernels(repo: str, report: dict) -> str:
+    out = [KERNELS_HEADER]
+    report["kernels"] = {}
+    try:
+        ctx = Ctx(repo)
+    except Exception as e:  # noqa: BLE001
+        ctx = None
+        ctx_err = f"{type(e).__name__}: {e}"
+    for name, fn, origin, fsig, fbody in KERNELS:
+        notes: list[str] = []
+        try:
+            if ctx is None:
+                raise Unsupported(ctx_err)
+            sig, lines = fn(ctx, notes)
+            report["kernels"][name] = "translated"
+        except Exception as e:  # noqa: BLE001  (any unexpected shape is a fallback, never a guess)
+            msg = str(e) if isinstance(e, Unsupported) else f"{type(e).__name__}: {e}"
+            report["fallbacks"].append(f"kernel {name}: {msg}")
+            report["kernels"][name] = "fallback"
+            notes = ["FALLBACK (not equal to the model on purpose): " + msg.replace("*)", "* )")]
+            sig, lines = fsig, [f"(fun _ : Num T => {fbody}) N"]
+        out.append(f"  (* {origin} *)")
+        for n in dict.fromkeys(notes):
+            out.append(f"  (* note: {n.replace('*)', '* )')} *)")
+        body = [w for l in lines for w in wrap("    " + l)]
+        body[-1] += "."
+        out.append("\n".join(wrap(f"  Definition {name} {sig} :=")) + "\n" + "\n".join(body) + "\n")
+    out.append("End Kernels.")
+    return "\n".join(out) + "\n"
+
+
+KERNELCHECK = """(* KernelCheck.v — the numeric kernels regenerated from the Python source (Gen/Kernels.v) equal the hand-written
+   model, for every numeric type.  By computation: [reflexivity] where the two are convertible, otherwise the
+   generic case analysis [tie] on every test both sides make.  The proof text does not depend on the source. *)
+From Coq Require Import ZArith List Bool String.
+Import ListNotations.
+From OSQ Require Import Num IR Construct DefaultTable Matrix Check ABA Merge McKay CNOTDec Constants ConstCheck Kernels.
+
+(* unfold everything except the functions both sides call with the same arguments *)
+Ltac tie_norm :=
+  cbv beta iota zeta delta -[default_gate rot_gate x90 aba_angles filter_identities normalize_angle
+                              Z.eqb Z.sub Z.add Z.ltb Z.leb String.eqb].
+(* the same, but the default gates X(q), CNOT(c, t) are computed from the table *)
+Ltac tie_norm_gates :=
+  cbv beta iota zeta delta -[rot_gate aba_angles filter_identities normalize_angle Z.eqb Z.sub Z.add Z.ltb Z.leb].
+(* closed integer tests are evaluated *)
+Ltac eval_closed :=
+  repeat match goal with
+  | |- context [Z.eqb ?a ?b] =>
+      let v := eval compute in (Z.eqb a b) in
+      match v with true => idtac | false => idtac end;
+      change (Z.eqb a b) with v
+  end.
+(* one case analysis on a scrutinee that contains no other test *)
+Ltac case_one :=
+  once (match goal with
+        | |- context [match ?c with _ => _ end] =>
+            lazymatch c with
+            | context [match _ with _ => _ end] => fail
+            | _ => destruct c
+            end
+        end).
+Ltac tie_cases :=
+  tryif reflexivity then idtac
+  else tryif case_one then (tie_norm; eval_closed; tie_cases)
+  else fail "the kernel regenerated from the Python source differs from the hand-written model".
+Ltac split_args :=
+  repeat match goal with
+         | x : axis_id |- _ => destruct x
+         | x : ginfo _ |- _ => destruct x
+         end.
+Ltac tie := intros; tryif reflexivity then idtac else (split_args; tie_norm; eval_closed; tie_cases).
+
+Lemma aba_angles_ok : forall (T : Type) (N : Num T) (ia ib : axis_id) (alpha : T) (ax : axis3 T),
+  gen_aba_angles N ia ib alpha ax = aba_angles N ia ib alpha ax.
+Proof. unfold aba_angles. tie. Qed.
+
+Lemma aba_gates_ok : forall (T : Type) (N : Num T) (ia ib : axis_id) (q : Z) (ax : axis3 T) (angle phase : T),
+  gen_aba_gates N ia ib q ax angle phase = aba_gates N ia ib (BSR q ax angle phase).
+Proof. tie. Qed.
+
+Lemma compose_ok : forall (T : Type) (N : Num T) (qa : Z) (axa : axis3 T) (anga pha : T) (gia : ginfo T)
+    (qb : Z) (axb : axis3 T) (angb phb : T) (gib : ginfo T),
+  gen_compose N qa axa anga pha gia qb axb angb phb gib =
+  compose_gates N (BSR qa axa anga pha, gia) (BSR qb axb angb phb, gib).
+Proof. tie. Qed.
+
+Lemma can1_ok : forall (T : Type) (N : Num T) (ax : axis3 T) (angle phase : T),
+  gen_can1 N ax angle phase = can1 N ax angle phase.
+Proof. tie. Qed.
+
+Lemma is_identity_ok : forall (T : Type) (N : Num T) (q : Z) (ax : axis3 T) (angle phase : T),
+  gen_is_identity N q ax angle phase = is_identity N (BSR q ax angle phase).
+Proof. tie. Qed.
+
+Lemma bsr_eq_ok : forall (T : Type) (N : Num T) (q1 : Z) (ax1 : axis3 T) (a1 p1 : T) (q2 : Z) (ax2 : axis3 T) (a2 p2 : T),
+  gen_bsr_eq N q1 ax1 a1 p1 q2 ax2 a2 p2 = bsr_eq N q1 ax1 a1 p1 q2 ax2 a2 p2.
+Proof. tie. Qed.
+
+Lemma mckay_decompose_ok : forall (T : Type) (N : Num T) (q : Z) (ax : axis3 T) (angle phase : T) (gi : ginfo T),
+  gen_mckay_decompose N q ax angle phase gi = mckay_decompose N (BSR q ax angle phase) gi.
+Proof. tie. Qed.
+
+(* The control of a ControlledGate is not one of its target's qubits (ir.py, ControlledGate.__init__; Construct.mk_ctrl).
+   Without this invariant the source builds CNOT(c, t) last and the model first: both then fail with a ValueError,
+   possibly not the same one; the two are still equal (checked once with aba_angles unfolded, 12 minutes). *)
+Lemma cnot_decompose_ok : forall (T : Type) (N : Num T) (c tq : Z) (ax : axis3 T) (angle phase : T) (gi : ginfo T),
+  Z.eqb c tq = false ->
+  gen_cnot_decompose N c tq ax angle phase = cnot_decompose N (Ctrl c (BSR tq ax angle phase)) gi.
+Proof. intros T N c tq ax angle phase gi H. tie_norm_gates. rewrite ?H. cbv beta iota zeta. eval_closed. tie_cases. Qed.
+
+Definition source_kernels_checked : Prop :=
+  (forall (T : Type) (N : Num T) ia ib alpha ax, gen_aba_angles N ia ib alpha ax = aba_angles N ia ib alpha ax) /\\
+  (forall (T : Type) (N : Num T) ia ib q ax angle phase,
+     gen_aba_gates N ia ib q ax angle phase = aba_gates N ia ib (BSR q ax angle phase)) /\\
+  (forall (T : Type) (N : Num T) qa axa anga pha gia qb axb angb phb gib,
+     gen_compose N qa axa anga pha gia qb axb angb phb gib =
+     compose_gates N (BSR qa axa anga pha, gia) (BSR qb axb angb phb, gib)) /\\
+  (forall (T : Type) (N : Num T) ax angle phase, gen_can1 N ax angle phase = can1 N ax angle phase) /\\
+  (forall (T : Type) (N : Num T) q ax angle phase,
+     gen_is_identity N q ax angle phase = is_identity N (BSR q ax angle phase)) /\\
+  (forall (T : Type) (N : Num T) q1 ax1 a1 p1 q2 ax2 a2 p2,
+     gen_bsr_eq N q1 ax1 a1 p1 q2 ax2 a2 p2 = bsr_eq N q1 ax1 a1 p1 q2 ax2 a2 p2) /\\
+  (forall (T : Type) (N : Num T) q ax angle phase gi,
+     gen_mckay_decompose N q ax angle phase gi = mckay_decompose N (BSR q ax angle phase) gi) /\\
+  (forall (T : Type) (N : Num T) c tq ax angle phase gi, Z.eqb c tq = false ->
+     gen_cnot_decompose N c tq ax angle phase = cnot_decompose N (Ctrl c (BSR tq ax angle phase)) gi).
+Lemma source_kernels_ok : source_kernels_checked.
+Proof.
+  exact (conj aba_angles_ok (conj aba_gates_ok (conj compose_ok (conj can1_ok (conj is_identity_ok
+        (conj bsr_eq_ok (conj mckay_decompose_ok cnot_decompose_ok))))))).
+Qed.
+"""
+
+
 SIGCHECK = """(* SigCheck.v — names, parameter lists and membership lists regenerated from the Python source equal the
    hand-written ones (the part of the tables that parsing, building and writing depend on). By computation. *)
 From Coq Require Import ZArith List String.
@@ -469,13 +2112,50 @@ def write_if_changed(path: str, content: str) -> bool:
     return True
 
 
+def split_kernelcheck(text: str) -> list[tuple[str, str]]:
+    """One file per kernel tie (so that a property rests only on the kernels it needs): the tactic prelude goes to
+    KernelTactics.v, each `Lemma x_ok ... Qed.` with the comment above it to KC_x.v, the summary to KernelCheck.v."""
+    lines = text.split("\n")
+    first = next(i for i, l in enumerate(lines) if l.startswith("Lemma "))
+    # comments directly above the first lemma belong to it
+    start = first
+    while start > 0 and lines[start - 1].strip() and not lines[start - 1].startswith(("Ltac", "From", "Import")) \
+            and (lines[start - 1].lstrip().startswith("(*") or not lines[start - 1].rstrip().endswith(".")):
+        if lines[start - 1].startswith("Ltac") or lines[start - 1].endswith("."):
+            break
+        start -= 1
+    prelude = "\n".join(lines[:start]).rstrip() + "\n"
+    req = next(l for l in lines if l.startswith("From OSQ Require Import"))
+    head = "From Coq Require Import ZArith List Bool String.\nImport ListNotations.\n" + req.rstrip(".") + " KernelTactics.\n\n"
+    files = [("KernelTactics.v", prelude)]
+    names = []
+    i = start
+    block: list[str] = []
+    summary_at = next(j for j, l in enumerate(lines) if l.startswith("Definition source_kernels_checked"))
+    while i < summary_at:
+        block.append(lines[i])
+        if lines[i].rstrip().endswith("Qed."):
+            lem = next(l for l in block if l.startswith("Lemma "))
+            nm = lem.split()[1]
+            names.append(nm)
+            files.append((f"KC_{nm}.v", f"(* generated: tie of one numeric kernel to the hand model *)\n" + head + "\n".join(block).strip("\n") + "\n"))
+            block = []
+        i += 1
+    summary = "(* KernelCheck.v — all kernel ties in one statement *)\n" + head.replace(" KernelTactics.", " KernelTactics " + " ".join(f"KC_{n}" for n in names) + ".") + \
+        "\n".join(lines[summary_at:]).rstrip() + "\n"
+    files.append(("KernelCheck.v", summary))
+    return files
+
+
 def main() -> int:
     repo, out = sys.argv[1], sys.argv[2]
     os.makedirs(out, exist_ok=True)
     report = {"fallbacks": [], "changed": []}
     for name, content in (("DefaultGates.v", translate_default_gates(repo, report)),
                           ("Constants.v", translate_constants(repo, report)),
-                          ("SigCheck.v", SIGCHECK), ("ConstCheck.v", CONSTCHECK), ("TableCheck.v", TABLECHECK)):
+                          ("Kernels.v", translate_kernels(repo, report)),
+                          ("SigCheck.v", SIGCHECK), ("ConstCheck.v", CONSTCHECK), ("TableCheck.v", TABLECHECK),
+                          *split_kernelcheck(KERNELCHECK)):
         if write_if_changed(os.path.join(out, name), content):
             report["changed"].append(name)
     with open(os.path.join(out, "translator_report.json"), "w") as f:
